@@ -53,6 +53,8 @@ type c13W struct {
 	// script for the request being served
 	polMode  string // success | inprogress | fail | failerr | internal
 	hgFail   bool
+	hgDeny   bool
+	owner    map[string]string
 	baMode   string // approve | pending | slow | deny | fail
 	dcrFail  bool
 	cert     *x509.Certificate
@@ -144,7 +146,7 @@ func newC13World(r *mrand.Rand, flavour, pfx string, variant int) (*c13W, error)
 		keyCache = append(keyCache, genKey())
 		certCache = append(certCache, genCert(fmt.Sprintf("client%d.example", len(certCache)+1)))
 	}
-	w := &c13W{name: fmt.Sprintf("%s%s/v%d", flavour, pfx, variant), stores: NewStores(flavour), pfx: pfx, r: r, arts: map[string][]string{},
+	w := &c13W{name: fmt.Sprintf("%s%s/v%d", flavour, pfx, variant), stores: NewStores(flavour), pfx: pfx, r: r, arts: map[string][]string{}, owner: map[string]string{},
 		polMode: "success", baMode: "approve"}
 	w.ckey = genKey()
 	w.rsaK, _ = rsa.GenerateKey(rand.Reader, 2048)
@@ -230,6 +232,9 @@ func newC13World(r *mrand.Rand, flavour, pfx string, variant int) (*c13W, error)
 		provider.WithHandleGrantFunc(func(*http.Request, *goidc.GrantInfo) error {
 			if w.hgFail {
 				return fail()
+			}
+			if w.hgDeny {
+				return goidc.NewError(goidc.ErrorCodeAccessDenied, "grant denied by the embedder")
 			}
 			return nil
 		}),
@@ -637,7 +642,7 @@ func locParam(loc, k string) string {
 }
 
 func (w *c13W) seed() {
-	w.polMode, w.baMode, w.hgFail = "success", "approve", false
+	w.polMode, w.baMode, w.hgFail, w.hgDeny = "success", "approve", false, false
 	for _, cid := range []string{"c1", "c6", "c3"} {
 		var h [][2]string
 		res := w.postForm("/token", w.auth(cid, form{{"grant_type", "client_credentials"}, {"scope", "email"}}, &h), h)
@@ -652,12 +657,14 @@ func (w *c13W) seed() {
 			code = jwtClaim(r, "code")
 		}
 		w.add("code", code)
+		w.owner[code] = cid
 		if i < 3 && code != "" {
 			var h [][2]string
 			f := w.auth(cid, form{{"grant_type", "authorization_code"}, {"code", code}, {"redirect_uri", c13Redirect}, {"code_verifier", strings.Repeat("v", 50)}}, &h)
 			res := w.postForm("/token", f, h)
 			w.add("access_token", jsonField(res.Body, "access_token"))
 			w.add("refresh_token", jsonField(res.Body, "refresh_token"))
+			w.owner[jsonField(res.Body, "refresh_token")] = cid
 			w.add("id_token", jsonField(res.Body, "id_token"))
 		}
 	}
@@ -672,6 +679,7 @@ func (w *c13W) seed() {
 		f := w.auth(cid, form{{"scope", "openid email"}, {"login_hint", "user1"}, {"client_notification_token", "cnt-0123456789"}}, &h)
 		res := w.postForm("/bc-authorize", f, h)
 		w.add("auth_req_id", jsonField(res.Body, "auth_req_id"))
+		w.owner[jsonField(res.Body, "auth_req_id")] = cid
 	}
 	w.polMode = "inprogress"
 	for i := 0; i < 2; i++ {
@@ -764,6 +772,7 @@ func (w *c13W) next() rawReq {
 	w.polMode = pick(r, []string{"success", "success", "inprogress", "fail", "failerr"})
 	w.baMode = pick(r, []string{"approve", "approve", "pending", "slow", "deny"})
 	w.hgFail, w.dcrFail = false, false
+	w.hgDeny = r.Intn(8) == 0
 	rq := w.gen()
 	rq.Route = w.routeOf(rq.Target)
 	rq.Fault = -1
@@ -844,8 +853,11 @@ func (w *c13W) gen() rawReq {
 		gt := pick(r, []string{"authorization_code", "refresh_token", "client_credentials", "urn:openid:params:grant-type:ciba",
 			"urn:ietf:params:oauth:grant-type:jwt-bearer", "password", "", junk()})
 		f := form{{"grant_type", gt}}
-		f = w.auth(cid, f, &hdr)
 		code, rt, ar := w.art("code"), w.art("refresh_token"), w.art("auth_req_id")
+		if o := w.owner[map[string]string{"authorization_code": code, "refresh_token": rt, "urn:openid:params:grant-type:ciba": ar}[gt]]; o != "" && r.Intn(4) != 0 {
+			cid = o
+		}
+		f = w.auth(cid, f, &hdr)
 		switch gt {
 		case "authorization_code":
 			f = f.set("code", code).set("redirect_uri", c13Redirect).set("code_verifier", strings.Repeat("v", 50))
@@ -878,6 +890,9 @@ func (w *c13W) gen() rawReq {
 				v = pick(r, []string{"jwt", "query.jwt", "fragment.jwt", "form_post.jwt", "form_post", "fragment", "query"})
 			}
 			q = q.set(fld, v)
+		}
+		if r.Intn(4) == 0 {
+			q = q.set("response_mode", pick(r, []string{"jwt", "query.jwt", "fragment.jwt", "form_post.jwt", "form_post", "fragment", "query"}))
 		}
 		present := []string{q.get("request_uri")}
 		if r.Intn(4) == 0 {
@@ -1059,7 +1074,7 @@ func (w *c13W) judge(ctx *RunCtx, rq rawReq, res rawRes, before, after string) (
 			find("/authorize:redirect:internal_error", fmt.Sprintf("%s %s redirected with internal_error although nothing failed", rq.Method, route))
 		}
 	}
-	if refused && !injected {
+	if refused && !res.FaultHit {
 		if d := frameDiff(before, after, rq.Present); d != "" {
 			// the presented callback belongs to a session whose client was deleted: a narrower signature
 			for _, p := range rq.Present {
@@ -1135,6 +1150,16 @@ func c13Stream(ctx *RunCtx, n int) {
 		if !refused {
 			w.add("access_token", jsonField(res.Body, "access_token"))
 			w.add("refresh_token", jsonField(res.Body, "refresh_token"))
+			if rt := jsonField(res.Body, "refresh_token"); rt != "" {
+				for _, hv := range rq.Hdr {
+					if hv[0] == "Authorization" && strings.HasPrefix(hv[1], "Basic ") {
+						w.owner[rt] = "c4"
+					}
+				}
+				if v, err := url.ParseQuery(rq.Body); err == nil && v.Get("client_id") != "" {
+					w.owner[rt] = v.Get("client_id")
+				}
+			}
 			w.add("request_uri", jsonField(res.Body, "request_uri"))
 			w.add("auth_req_id", jsonField(res.Body, "auth_req_id"))
 			w.add("code", locParam(res.Loc, "code"))
